@@ -30,6 +30,7 @@ import (
 	l22keygen "github.com/bronlabs/bron-crypto/pkg/mpc/signatures/schnorr/lindell22/keygen"
 	l22signing "github.com/bronlabs/bron-crypto/pkg/mpc/signatures/schnorr/lindell22/signing"
 	"github.com/bronlabs/bron-crypto/pkg/network"
+	"github.com/bronlabs/bron-crypto/pkg/network/exchange"
 	"github.com/bronlabs/bron-crypto/pkg/proofs/sigma/compiler"
 	sigecdsa "github.com/bronlabs/bron-crypto/pkg/signatures/ecdsa"
 	"github.com/bronlabs/bron-crypto/pkg/signatures/schnorrlike"
@@ -67,6 +68,10 @@ type signFlavor[G algebra.PrimeGroupElement[G, S], S algebra.PrimeFieldElement[S
 	// encPartial / decPartial: wire form of a partial signature on its way to the aggregator.
 	encPartial func(p any) ([]byte, error)
 	decPartial func(b []byte) (any, error)
+	// signKeep, when set, cosigns round by round (same rounds and exchange helpers
+	// as the library runner) and additionally returns an aggregation function
+	// bound to the cosigner's state (the cosigning-aggregator path).
+	signKeep func(ctx context.Context, rt *network.Router, sctx *session.Context, shard *mpc.BaseShard[G, S], comp compiler.Name, msg []byte, rnd io.Reader) (partial any, agg func(partials map[sim.ID]any, msg []byte) ([]byte, any, error), err error)
 }
 
 // ---------- Lindell22 over a vanilla Schnorr scheme ----------
@@ -216,6 +221,58 @@ func flavorL22BIP340() *signFlavor[*k256.Point, *k256.Scalar] {
 		}
 		wire, err := bip340.SerializeSignature(sig)
 		return wire, sig, err
+	}
+	f.signKeep = func(ctx context.Context, rt *network.Router, sctx *session.Context, base *mpc.BaseShard[*k256.Point, *k256.Scalar], comp compiler.Name, msg []byte, rnd io.Reader) (any, func(map[sim.ID]any, []byte) ([]byte, any, error), error) {
+		scheme, err := bip340.NewScheme(rnd)
+		if err != nil {
+			return nil, nil, err
+		}
+		shard, err := l22keygen.NewShard(base)
+		if err != nil {
+			return nil, nil, err
+		}
+		cs, err := l22signing.NewCosigner(sctx, shard, comp, scheme.Variant(), rnd)
+		if err != nil {
+			return nil, nil, err
+		}
+		// the three rounds exactly as the library runner drives them
+		r1b, r1u, err := cs.Round1()
+		if err != nil {
+			return nil, nil, err
+		}
+		r2bIn, r2uIn, err := exchange.Exchange(ctx, rt, "Lindell22SigningRound1", cs.Quorum(), r1b, r1u)
+		if err != nil {
+			return nil, nil, err
+		}
+		r2b, err := cs.Round2(r2bIn, r2uIn)
+		if err != nil {
+			return nil, nil, err
+		}
+		r3bIn, err := exchange.BroadcastExchange(ctx, rt, "Lindell22SigningRound2", cs.Quorum(), r2b)
+		if err != nil {
+			return nil, nil, err
+		}
+		ps, err := cs.Round3(r3bIn, msg)
+		if err != nil {
+			return nil, nil, err
+		}
+		agg := func(partials map[sim.ID]any, m []byte) ([]byte, any, error) {
+			a, err := l22signing.NewCosigningAggregator(cs, shard.PublicKeyMaterial(), scheme)
+			if err != nil {
+				return nil, nil, err
+			}
+			pm := hashmap.NewComparable[sim.ID, *lindell22.PartialSignature[*k256.Point, *k256.Scalar]]()
+			for id, p := range partials {
+				pm.Put(id, p.(*lindell22.PartialSignature[*k256.Point, *k256.Scalar]))
+			}
+			sig, err := a.Aggregate(pm.Freeze(), m)
+			if err != nil {
+				return nil, nil, err
+			}
+			wire, err := bip340.SerializeSignature(sig)
+			return wire, sig, err
+		}
+		return ps, agg, nil
 	}
 	f.libVerify = func(pk *k256.Point, msg []byte, sig any) error {
 		scheme, err := bip340.NewScheme(zeroReader{})
